@@ -9,6 +9,7 @@ import (
 	"fmt"
 	"go/constant"
 	"go/token"
+	"math/big"
 	"sort"
 	"strings"
 
@@ -138,3 +139,115 @@ func ruleTNop(c *Ctx) {
 }
 
 var _ = ssa.Value(nil)
+
+// T-end: how a script's end is judged (thread.CheckErrorCondition), as a prefix decision table over the
+// three things it reads before it pops the verdict: the depth of the data stack, whether this is the final
+// script, and the CLEANSTACK flag: an empty stack is ErrEmptyStack; on the final script under CLEANSTACK
+// anything but exactly one item is ErrCleanStack; otherwise the top item is popped as the verdict.
+func ruleTEnd(c *Ctx) {
+	fn := c.P.Func("bscript/interpreter", "*thread", "CheckErrorCondition")
+	clean := pkgConst(c, "bscript/interpreter/scriptflag", "VerifyCleanStack")
+	eEmpty := pkgConst(c, "bscript/interpreter/errs", "ErrEmptyStack")
+	eClean := pkgConst(c, "bscript/interpreter/errs", "ErrCleanStack")
+	if fn == nil || clean < 0 || eEmpty < 0 || eClean < 0 {
+		c.Undecided("T-end", "CheckErrorCondition", token.NoPos, "function, flag or error codes not found")
+		return
+	}
+	paths, err := feasiblePaths(fn, 20000)
+	if err != nil {
+		c.Undecided("T-end", "CheckErrorCondition", fn.Pos(), "cannot enumerate paths: "+err.Error())
+		return
+	}
+	// the atoms of the prologue
+	kind := func(k string, t *T) string {
+		switch {
+		case t.K == "call" && strings.Contains(t.Name, ").Depth") && strings.Contains(k, "dstack"):
+			return "depth"
+		case k == "p1":
+			return "final"
+		case t.K == "call" && strings.Contains(t.Name, ".hasFlag") && len(t.Args) == 2 && t.Args[1].K == "const" && t.Args[1].C != nil:
+			if v, _ := constant.Int64Val(constant.ToInt(t.Args[1].C)); v == clean {
+				return "clean"
+			}
+		}
+		return ""
+	}
+	cells := 0
+	var bad []string
+	for _, depth := range []int64{0, 1, 2, 3, 1000} {
+		for m := 0; m < 4; m++ {
+			final, cl := m&1 != 0, m&2 != 0
+			want := "verdict popped"
+			switch {
+			case depth < 1:
+				want = "ErrEmptyStack"
+			case final && cl && depth != 1:
+				want = "ErrCleanStack"
+			}
+			got := map[string]bool{}
+			for _, p := range paths {
+				asgOK, outcome := true, ""
+				for _, cd := range p.Conds {
+					bt := map[string]*T{}
+					baseTerms(cd.Cond, bt)
+					asg := map[string]*big.Int{}
+					known := len(bt) > 0
+					for k, t := range bt {
+						switch kind(k, t) {
+						case "depth":
+							asg[k] = big.NewInt(depth)
+						case "final":
+							asg[k] = big.NewInt(b2i(final))
+						case "clean":
+							asg[k] = big.NewInt(b2i(cl))
+						default:
+							known = false
+						}
+					}
+					if !known {
+						outcome = "verdict popped" // the prologue is over: the path goes on to the popped verdict
+						break
+					}
+					v, ok := evalTerm(cd.Cond, asg)
+					if !ok {
+						outcome = "a condition that does not fold: " + cd.Cond.String()
+						break
+					}
+					if (v.Sign() != 0) != cd.Truth {
+						asgOK = false
+						break
+					}
+				}
+				if !asgOK {
+					continue
+				}
+				if outcome == "" {
+					code, k := errCodeOfReturn(p)
+					switch {
+					case k == "error" && code == eEmpty:
+						outcome = "ErrEmptyStack"
+					case k == "error" && code == eClean:
+						outcome = "ErrCleanStack"
+					default:
+						outcome = fmt.Sprintf("%s %d without popping the verdict", k, code)
+					}
+				}
+				got[outcome] = true
+			}
+			cells++
+			if len(got) != 1 || !got[want] {
+				bad = append(bad, fmt.Sprintf("depth %d, final script %v, CLEANSTACK %v: code %v, rule %s", depth, final, cl, sortedKeys(got), want))
+			}
+		}
+	}
+	c.Covered["T-end:cells"] = cells
+	c.Check(len(bad) == 0, "T-end", "CheckErrorCondition", fn.Pos(), "empty stack: ErrEmptyStack; final script under CLEANSTACK with other than one item: ErrCleanStack; otherwise the verdict is popped (20 cells)",
+		"the end-of-script judgement differs from the rule: "+strings.Join(bad, "; "))
+}
+
+func b2i(b bool) int64 {
+	if b {
+		return 1
+	}
+	return 0
+}
